@@ -253,6 +253,30 @@ func (g *cgen) expr(t *wty, depth int) *wexpr {
 		}
 		return e
 	}
+	// directed: a three-argument builtin on constant vectors (component-wise folder); low <= high so that the
+	// clamp precondition holds
+	if t.k == "vec" && sc.k != "bool" && c.chance(0.08) {
+		e, lo, hi := g.leaf(t), g.leaf(t), g.leaf(t)
+		if lo.k == "cons" && hi.k == "cons" && len(lo.args) == len(hi.args) {
+			for i := range lo.args {
+				a, b := lo.args[i], hi.args[i]
+				if a.k != "lit" || b.k != "lit" {
+					continue
+				}
+				less := a.bits < b.bits
+				if sc.k != "u32" {
+					less = int32(a.bits) < int32(b.bits)
+				}
+				if !less {
+					a.bits, b.bits = b.bits, a.bits
+				}
+			}
+		}
+		if sc.k == "f32" && c.chance(0.5) {
+			return call("fma", e, lo, hi)
+		}
+		return call("clamp", e, lo, hi)
+	}
 	r := c.rng.Intn(100)
 	switch sc.k {
 	case "i32", "u32":
@@ -425,6 +449,16 @@ func (g *cgen) expr(t *wty, depth int) *wexpr {
 				b = -b
 			}
 			return &wexpr{k: "fmix", ty: t, aval: a, bits: uint32(b), op: fmt.Sprint(c.rng.Intn(3)), konst: true}
+		case r < 97 && t.isScalar():
+			// f32 remainder on half-integral values of either sign, spelled so that the operands reach the folder as a
+			// negated literal, a literal or a component of a constant vector
+			c.count("float-remainder:halves")
+			a := int64(c.rng.Intn(61) - 30)
+			b := int32(1 + c.rng.Intn(11))
+			if c.chance(0.4) {
+				b = -b
+			}
+			return &wexpr{k: "frem", ty: t, aval: a, bits: uint32(b), op: fmt.Sprint(c.rng.Intn(3)), konst: true}
 		}
 	}
 	return g.leaf(t)
